@@ -74,6 +74,9 @@ pub struct RunCfg {
     /// undo profile, walk mode: number of captured steps built before the undo/redo walk (0 = off)
     #[serde(default)]
     pub undo_walk: u32,
+    /// sticky profile: node 0 runs an undo manager and undo/redo events are drawn
+    #[serde(default)]
+    pub sticky_undo: bool,
 }
 
 // ------------------------------------------------------------------------------------------------
